@@ -44,6 +44,9 @@ type Profile struct {
 	Name     string
 	Property string
 	Run      func(env *RunEnv)
+	// NoBubble runs the profile outside a synctest bubble (real goroutine
+	// scheduling; used where sync.Mutex waits must be observed).
+	NoBubble bool
 }
 
 // RunEnv is handed to a profile.
@@ -109,28 +112,37 @@ func RunOne(t *testing.T, prof *Profile, tape *Tape, runSeed uint64, index int) 
 		env := &RunEnv{T: t, Sim: sim, Tape: tape, Root: root, Res: res}
 		prof.Run(env)
 	}
-	func() {
+	// The bubble runs in a goroutine of its own: when the race detector has
+	// reported something, testing ends the calling goroutine (FailNow) after
+	// the bubble; the results are collected in a deferred function.
+	done := make(chan struct{})
+	go func() {
+		defer close(done)
 		defer func() {
 			if r := recover(); r != nil {
 				msg := fmt.Sprint(r)
-				if strings.Contains(msg, "deadlock: main bubble goroutine has exited but blocked goroutines remain") {
-					// Leftover goroutines blocked forever (e.g. a downloader
-					// of a crashed node waiting for a token): tolerated.
-					return
+				if !strings.Contains(msg, "deadlock: main bubble goroutine has exited but blocked goroutines remain") {
+					res.HarnessErr = "panic: " + msg + "\n" + string(debug.Stack())
 				}
-				res.HarnessErr = "panic: " + msg + "\n" + string(debug.Stack())
+				// else: leftover goroutines blocked forever (e.g. a downloader
+				// of a crashed node waiting for a token): tolerated.
+			}
+			if sim != nil {
+				res.LogHash = sim.LogHash()
+				res.Steps = sim.Step
+				res.Faults = sim.Faults
+				res.Probes = sim.Probes
+				res.Points = sim.PointHits
+				res.log = sim.Log()
 			}
 		}()
-		synctest.Test(t, body)
+		if prof.NoBubble {
+			body(t)
+		} else {
+			synctest.Test(t, body)
+		}
 	}()
-	if sim != nil {
-		res.LogHash = sim.LogHash()
-		res.Steps = sim.Step
-		res.Faults = sim.Faults
-		res.Probes = sim.Probes
-		res.Points = sim.PointHits
-		res.log = sim.Log()
-	}
+	<-done
 	res.Draws = len(tape.Rec)
 	res.tape = tape.Rec
 	res.Mismatch = tape.Mismatch
